@@ -2,6 +2,7 @@ package checks
 
 import (
 	"bytes"
+	"context"
 	"crypto/sha256"
 	"encoding/json"
 	"fmt"
@@ -203,7 +204,10 @@ func c08Schedules(r *mc.Run) {
 		if class[:7] == "verify:" {
 			b = bound + 1 // executions are cheap
 		}
-		out, err := exec.Command(bin, "c08sched", class, fmt.Sprint(b), fmt.Sprint(budget)).Output()
+		// the worker has its own budget; the hard limit only guards against a worker that hangs
+		wctx, cancel := context.WithTimeout(context.Background(), time.Duration(budget+90)*time.Second)
+		out, err := exec.CommandContext(wctx, bin, "c08sched", class, fmt.Sprint(b), fmt.Sprint(budget)).Output()
+		cancel()
 		if err != nil {
 			r.Cap("schedule worker for " + class + " failed: " + err.Error())
 			return
